@@ -543,6 +543,11 @@ def supported(t):
     # open finding C03/frozen-differs: the container held by a frozen field can be written to in depth (and, for a class, is the
     # default object of the spec itself): frozen specs keep to atomic values in the correspondence
     if fz and d and has_container(d[0]): bad.append(s)
+    # a Dict default holding MISSING_VALUE under a key of the StrKey() field: kept when the default is applied as a plain dict, deleted when a
+    # symbolic dict is applied in place -- outside the model
+    if s[0] == 7 and s[1] and d and d[0][0] == 8:
+      consts = {tuple(kk[1]) for kk, _ in s[1][0] if kk[0] == 0}
+      if any(tuple(k) not in consts and x == [1] for k, x in d[0][1]): bad.append(s)
     # a Union with a dict / list default: symbolic_transform_fn looks the candidate up with Union.get_candidate(Dict()), which can fail
     if s[0] == 9 and d and has_container(d[0]): bad.append(s)
   walk_spec(t, fn)
